@@ -377,6 +377,10 @@ func (r *propResult) report() int {
 				}
 				fmt.Printf("VIOLATION property=%s replay=%s%s\n", r.Prop, path, suffix)
 				fmt.Printf("  obligation %s failed (%s): %s\n", n, bad.Res.Status, firstN(bad.Note, 200))
+				if bad.replayed {
+					in, _ := json.Marshal(bad.replayData["inputs"])
+					fmt.Printf("  replayed on the real code: %s\n  failing input of %v: %s\n", firstN(bad.replayNote, 240), bad.replayData["function"], firstN(string(in), 400))
+				}
 			}
 		}
 		sums = append(sums, s)
